@@ -130,7 +130,7 @@ func pairHistory(t *testing.T, c *vlib.Collector, r *vlib.Rand, id *int, steps i
 
 // genPair: end to end on the fake discovery server
 func genPair(t *testing.T, c *vlib.Collector, r *vlib.Rand, id int) int {
-	n := vlib.Scale(2, 30)
+	n := vlib.Scale(2, 16)
 	for h := 0; h < n; h++ {
 		hr := r.Sub()
 		base := id
